@@ -149,6 +149,14 @@ def step (st : St) : List String → St × String
           | none => "err notfound"
         ({ st with b := b }, rs ++ " " ++ fmtB b)
       | none => (st, "bad-op")
+  | ["b.push", id] => match nat? id with   -- an InvTypeBlock request: the block is looked up, sent without its confirm
+      | some id =>
+        let (r, b) := getBlock st.bdb st.b id
+        let rs := match r with
+          | some _ => s!"ok {id} 0"
+          | none => "err notfound"
+        ({ st with b := b }, rs ++ " " ++ fmtB b)
+      | none => (st, "bad-op")
   | ["b.get2", id] => match nat? id with   -- two concurrent misses for one hash
       | some id =>
         let (r, b) := getBlockRace st.bdb st.b id
